@@ -675,7 +675,11 @@ export class TypeofRuntype extends BaseRuntype {
     }
     return this.typeName;
   }
-  schema(_ctx: SchemaContext): JSONSchema7 {
+  schema(ctx: SchemaContext): JSONSchema7 {
+    // the compiler also emits "function" (any function type), which is not a JSON Schema type
+    if ((this.typeName as string) === "function") {
+      throw new Error(buildSchemaErrorMessage(ctx, "Cannot generate JSON Schema for function"));
+    }
     return annotateSchema(this.metadata, { type: this.typeName });
   }
   validate(_ctx: ValidateContext, input: unknown): boolean {
